@@ -128,20 +128,10 @@ impl Admin {
     { unimplemented!() }
 }
 
-// ---------- oracle queries (vamm/src/querier.rs: thin deps.querier.query wrappers, not extracted) ----------
-pub uninterp spec fn oracle_price(q: QuerierWrapper, feed: Seq<char>, key: Seq<char>) -> Uint128;
-pub uninterp spec fn oracle_twap(q: QuerierWrapper, feed: Seq<char>, key: Seq<char>, interval: u64) -> Uint128;
-
-#[verifier::external_body]
-pub fn query_underlying_price(deps: &Deps) -> (r: StdResult<Uint128>)
-    ensures
-        r is Ok ==> deps.storage.view().config is Some,
-        r is Ok ==> r->Ok_0 == oracle_price(deps.querier, deps.storage.view().config->Some_0.pricefeed@, deps.storage.view().config->Some_0.base_asset@),
-{ unimplemented!() }
-
-#[verifier::external_body]
-pub fn query_underlying_twap_price(deps: &Deps, interval: u64) -> (r: StdResult<Uint128>)
-    ensures
-        r is Ok ==> deps.storage.view().config is Some,
-        r is Ok ==> r->Ok_0 == oracle_twap(deps.querier, deps.storage.view().config->Some_0.pricefeed@, deps.storage.view().config->Some_0.base_asset@, interval),
-{ unimplemented!() }
+// ---------- oracle queries: vamm/src/querier.rs wrappers are extracted (specs/vamm.vrs) against QuerierWrapper::query ----------
+pub open spec fn oracle_price(q: QuerierWrapper, feed: Seq<char>, key: Seq<char>) -> Uint128 {
+    query_answer::<Uint128>(q, QueryView::Smart { addr: feed, payload: Payload::FeedQGetPrice { key } })
+}
+pub open spec fn oracle_twap(q: QuerierWrapper, feed: Seq<char>, key: Seq<char>, interval: u64) -> Uint128 {
+    query_answer::<Uint128>(q, QueryView::Smart { addr: feed, payload: Payload::FeedQGetTwapPrice { key, interval } })
+}
